@@ -18,6 +18,7 @@ import (
 	"os"
 	"os/exec"
 	"path/filepath"
+	"regexp"
 	"runtime"
 	"sort"
 	"strconv"
@@ -359,6 +360,28 @@ func main() {
 	}
 	merged.Violations = append(merged.Violations, crashViolations...)
 	merged.ViolationsN += int64(len(crashViolations))
+
+	// supplementary free-running -race pass (C13, thorough tier)
+	if id == "C13" && tier == "thorough" && replay == "" {
+		raceBin := buildBinary(profile, true)
+		env := append(goEnv(), "VERIF_RACE_PASS=1", "GOMAXPROCS=8", "GORACE=halt_on_error=0")
+		log, err := run(verifDir, env, raceBin, "-test.run", "^TestC13Race$", "-test.timeout", "0", "-test.count", "1", "-test.v")
+		logPath := filepath.Join(logDir, "C13-race-pass.log")
+		_ = os.WriteFile(logPath, []byte(log), 0o644)
+		races := strings.Count(log, "WARNING: DATA RACE")
+		merged.Extra["race_pass_reports"] = int64(races)
+		merged.Notes["race_pass"] = "free-running -race pass of the scenario bodies (real sync.Pool, no scheduler): supplementary; log " + logPath
+		if m := regexp.MustCompile(`race pass: (\d+) free-running calls`).FindStringSubmatch(log); m != nil {
+			n, _ := strconv.ParseInt(m[1], 10, 64)
+			merged.Extra["race_pass_calls"] = n
+		}
+		if races > 0 && strings.Contains(log, "github.com/bufbuild/connect-go.") {
+			merged.Violations = append(merged.Violations, ev.Violation{Property: id, Clause: "no-data-race", Outcome: "race", Tags: []string{"race-pass"}, Detail: "the race detector reported " + strconv.Itoa(races) + " data race(s) in the free-running pass; log " + logPath + "\n" + firstLines(log[strings.Index(log, "WARNING: DATA RACE"):], 40), Test: "^TestC13Race$"})
+			merged.ViolationsN++
+		} else if err != nil {
+			harnessErrs = append(harnessErrs, fmt.Sprintf("race pass failed without a race report (%v); log %s", err, logPath))
+		}
+	}
 
 	// classify violations
 	kn := loadKnown()
